@@ -11,6 +11,7 @@
 #include "llvm/Support/SourceMgr.h"
 #include "llvm/Support/raw_ostream.h"
 #include "llvm/ADT/SmallString.h"
+#include "llvm/Demangle/Demangle.h"
 #include "llvm/IR/LegacyPassManager.h"
 #include "llvm/Pass.h"
 #include "llvm/Transforms/IPO.h"
@@ -145,6 +146,49 @@ static bool ovGepTail(StructType *S, std::string &e, ArrayRef<Value*> idxV, unsi
   if (off >= 0 && typedPath(ovElem(S), (uint64_t)off, nullptr, p)) { e += ".f0" + p; cur = g_foundTy; return true; }
   e = "(*((u8*)&" + e + " + " + std::to_string(off) + "))"; cur = Type::getInt8Ty(S->getContext());
   return true;
+}
+
+// Several same-size candidates for one __aligned_buffer type (llvm-link unifies the isomorphic buffer/control-block types of e.g.
+// make_shared<PropertyStorageT<int>> and make_shared<PropertyStorageT<OpenVolumeMeshStatus>>): the C struct stays a byte buffer, but each
+// ALLOCATION of an enclosing control block gets its own synthesized C struct type in which the buffer is { T f0; } for the T of that
+// allocation site (chosen from the demangled names of the enclosing function and of the callees receiving the new pointer).  The dynamic
+// object is then typed and field-sensitive; accesses through the byte-typed pointers are resolved by CBMC by offset (same layout).
+static std::map<StructType*, std::set<Type*>> ovAmbig;      // buffer type -> candidate element types
+static std::map<Type*, std::string> ovClassName;            // candidate -> demangled class name (from its constructors/destructors)
+static std::string synthDefs; static unsigned synthCount = 0;
+static std::map<std::pair<Type*, Type*>, std::string> synthNames;
+static bool containsType(Type *X, StructType *S) {
+  if (X == S) return true;
+  if (auto *ST = dyn_cast<StructType>(X)) { if (ST->isOpaque()) return false; for (Type *E : ST->elements()) if (containsType(E, S)) return true; }
+  return false;
+}
+static StructType *findAmbigIn(Type *X) {
+  auto *ST = dyn_cast<StructType>(X); if (!ST || ST->isOpaque()) return nullptr;
+  if (ovAmbig.count(ST)) return ST;
+  for (Type *E : ST->elements()) if (StructType *r = findAmbigIn(E)) return r;
+  return nullptr;
+}
+// C type of X with the buffer type S replaced by { T f0; } (structs on the path are cloned; everything else keeps its type)
+static std::string synthType(Type *X, StructType *S, Type *T) {
+  if (!containsType(X, S)) return ctype(X);
+  auto key = std::make_pair(X, T);
+  auto it = synthNames.find(key); if (it != synthNames.end()) return it->second;
+  auto *ST = cast<StructType>(X);
+  std::string n = "struct VT" + std::to_string(synthCount++);
+  synthNames[key] = n;
+  std::string d;
+  if (ST == S) d = n + " { " + ctype(T) + " f0; };\n";
+  else {
+    std::string body; unsigned i = 0;
+    for (Type *E : ST->elements()) body += " " + synthType(E, S, T) + " f" + std::to_string(i++) + ";";
+    d = n + " {" + body + " }" + (ST->isPacked() ? " __attribute__((packed))" : "") + ";\n";
+  }
+  synthDefs += d;
+  return n;
+}
+static std::string demangled(StringRef n) {
+  std::string s = n.str(); char *d = itaniumDemangle(s.c_str(), nullptr, nullptr, nullptr);
+  if (!d) return s; std::string r(d); std::free(d); return r;
 }
 
 // emit struct/array definitions in dependency order
@@ -723,6 +767,23 @@ struct FnEmitter {
     if (auto *NC = dyn_cast<ConstantInt>(CI.getArgOperand(0))) for (User *U : CI.users()) if (auto *BC = dyn_cast<BitCastInst>(U)) { Type *t = BC->getType()->getPointerElementType(); if (t->isStructTy() && t->isSized() && DL->getTypeAllocSize(t) == NC->getZExtValue()) { ET = t; break; } }
     if (!ET) return false;
     std::string n = val(CI.getArgOperand(0)); std::string st = "sizeof(" + ctype(ET) + ")";
+    if (StructType *AB = findAmbigIn(ET)) {   // control block around an ambiguous __aligned_buffer: type this allocation by its site
+      std::vector<std::string> ev; ev.push_back(demangled(F.getName()));
+      std::vector<Value*> work{&CI}; std::set<Value*> seen;
+      while (!work.empty()) { Value *v = work.back(); work.pop_back(); if (!seen.insert(v).second) continue;
+        for (User *U : v->users()) {
+          if (isa<BitCastInst>(U) || isa<GetElementPtrInst>(U) || isa<PHINode>(U)) work.push_back(U);
+          else if (auto *CB = dyn_cast<CallBase>(U)) if (Function *cf = CB->getCalledFunction()) ev.push_back(demangled(cf->getName()));
+        } }
+      Type *pick = nullptr; unsigned hits = 0;
+      for (Type *cand : ovAmbig[AB]) {
+        const std::string &cn = ovClassName[cand]; if (cn.empty()) continue;
+        bool hit = false; for (auto &e : ev) if (e.find(cn + ",") != std::string::npos || e.find(cn + ">") != std::string::npos || e.find(cn + "::") != std::string::npos || e.find(cn + " ") != std::string::npos) hit = true;
+        if (hit) { pick = cand; ++hits; }
+      }
+      if (hits == 1) { st = "sizeof(" + synthType(ET, AB, pick) + ")"; errs() << "NOTE typed storage: allocation in " << F.getName().substr(0, 80) << " typed with " << ovClassName[pick] << "\n"; }
+      else errs() << "NOTE typed storage: allocation in " << F.getName().substr(0, 80) << ": " << hits << " matching candidates; left as bytes\n";
+    }
     const char *z = ET->isIntegerTy(64) ? "1" : "0"; // vector<bool> words: zero-initialised model (bit-level folding)
     O << ind << lhs << "(u8*)((" << n << " % " << st << " == 0) ? __CPROVER_allocate(" << st << " * (" << n << " / " << st << "), " << z << ") : __CPROVER_allocate(" << n << ", 0));\n";
     if (!lhs.empty() && isa<ConstantInt>(CI.getArgOperand(0)) && ET->isStructTy()) O << ind << "v_alloc_note((u8*)" << names[&CI] << ");\n";   // rank for v_plt (constant-size `new T`)
@@ -1130,7 +1191,28 @@ int main(int argc, char **argv) {
     }
     for (auto &c : cand) {
       if (c.second.size() == 1) { ovT[c.first] = *c.second.begin(); errs() << "NOTE typed storage: " << c.first->getName() << " -> " << cast<StructType>(*c.second.begin())->getName() << "\n"; }
-      else errs() << "NOTE typed storage: " << c.first->getName() << " has " << c.second.size() << " candidate types; left as bytes\n";
+      else {
+        ovAmbig[c.first] = c.second;
+        errs() << "NOTE typed storage: " << c.first->getName() << " has " << c.second.size() << " candidate types; typed per allocation site\n";
+      }
+    }
+    if (!ovAmbig.empty()) for (Function &F : *M) {   // demangled class names of the candidates, from their constructors / destructors
+      if (F.arg_empty() || !F.getName().startswith("_ZN")) continue;
+      auto *PT = dyn_cast<PointerType>(F.getArg(0)->getType()); if (!PT) continue;
+      Type *T0 = PT->getPointerElementType(); bool isCand = false;
+      for (auto &a : ovAmbig) if (a.second.count(T0)) isCand = true;
+      if (!isCand || ovClassName.count(T0)) continue;
+      std::string d = demangled(F.getName());
+      size_t par = std::string::npos; int depth = 0;   // first '(' outside template brackets
+      for (size_t i = 0; i < d.size(); ++i) { if (d[i] == '<') ++depth; else if (d[i] == '>') --depth; else if (d[i] == '(' && depth == 0) { par = i; break; } }
+      if (par == std::string::npos) continue;
+      std::string q = d.substr(0, par);   // Class<Args>::Class or Class<Args>::~Class
+      size_t sep = std::string::npos; depth = 0;
+      for (size_t i = 0; i + 1 < q.size(); ++i) { if (q[i] == '<') ++depth; else if (q[i] == '>') --depth; else if (q[i] == ':' && q[i + 1] == ':' && depth == 0) sep = i; }
+      if (sep == std::string::npos) continue;
+      std::string cls = q.substr(0, sep), mem = q.substr(sep + 2);
+      std::string base = cls; { int dd = 0; size_t cut = std::string::npos, lastsep = 0; for (size_t i = 0; i < cls.size(); ++i) { if (cls[i] == '<') { if (dd == 0 && cut == std::string::npos) cut = i; ++dd; } else if (cls[i] == '>') --dd; else if (cls[i] == ':' && dd == 0) { lastsep = i + 1; cut = std::string::npos; } } base = cls.substr(lastsep, (cut == std::string::npos ? cls.size() : cut) - lastsep); }
+      if (mem == base || mem == "~" + base) { ovClassName[T0] = cls; errs() << "NOTE typed storage: candidate " << cast<StructType>(T0)->getName() << " = " << cls << "\n"; }
     }
   }
   std::string body; raw_string_ostream B(body);
@@ -1249,6 +1331,7 @@ int main(int argc, char **argv) {
   for (size_t i = 0; i < arrOrder.size(); ++i) T << ctype(arrOrder[i]) << ";\n";
   for (size_t i = 0; i < structOrder.size(); ++i) emitTypeDef(structOrder[i], T);
   for (size_t i = 0; i < arrOrder.size(); ++i) emitTypeDef(arrOrder[i], T);
+  T << synthDefs;   // per-allocation typed control blocks (after every type they embed)
   T.flush();
   outs() << "#include \"v_rt.h\"\n";
   outs() << types << typedefs_fn << protos << globals << body;
